@@ -1,14 +1,313 @@
 /-
-  Driver.C02 — line protocol front end for property C02 (stub: not built yet).
+  Driver.C02 — line protocol for tensor view adaptors and their compositions.
+
+  The state is a stack of views; a case builds leaves, applies adaptors to the top of the stack
+  (or to the top `n` views for stack / chain) and asks questions about the top view.
+
+    @ case                              fresh empty stack                       → ok
+    leaf <id> <shape>                   push Tensor::from(shape, ids)            → ok shape=<shape> | reject
+    matrix <id> <rows> <cols> <r>,<c>   push TensorRefMatrix over a Matrix       → ok shape=<shape> | reject
+    matrixof <r>,<c>                    TensorRefMatrix::from/with_names(MatrixRefTensor::from(top)), top 2-dimensional
+    range  <name:start:len,…> kind=lenient|strict   TensorRange::from / from_all / *_strict
+    mask   <name:start:len,…> kind=lenient|strict   TensorMask::…
+    index  <name:i,…>                   TensorIndex::from
+    expand <pos:name,…>                 TensorExpansion::from
+    rename <names>                      TensorRename::from
+    reverse <names>                     TensorReverse::from
+    access <names>                      TensorAccess::from / try_from
+    transpose <names>                   TensorTranspose::from / try_from
+    stack <n> <pos:name>                TensorStack::from over the top n views (array / tuple)
+    chain <n> <name>                    TensorChain::from over the top n views (array / tuple)
+                                        every constructor: → ok shape=<shape> | reject
+                                        (on reject the stack is unchanged)
+    set_names <names>                   TensorRename::set_names on the top (a TensorRename)      → ok shape=<shape> | reject
+                                        (on reject the surviving view is the old one)
+    get_names                           TensorRename::get_names                  → names=<names>
+    swap_source                         std::mem::swap(top.source_ref_mut(), &mut second): the top
+                                        (a TensorRename / TensorReverse) now looks at the second
+                                        view, the old source takes its place     → ok shape=<shape>
+    shape                               view_shape of the top                    → shape=<shape>
+    get <idx>                           get_reference / _mut / _unchecked(_mut)  → some(<leaf>:<offset>) | none
+    set <idx>                           write a sentinel, scan the leaves        → changed=<leaf>:<offset> | none
+    layout                              data_layout                              → linear=<names> | nonlinear | other
+    memorder                            TensorAccess::from_memory_order, walked in its own order
+                                                                                → linear=<names> cells=<leaf>:<first>+<n> | none
+
+  `skip` answers an operation that cannot be expressed in Rust's types for the current stack
+  (wrong arity, dimensionality above 6, too few views): both sides apply the same rules.
+
+  The answer is the *specification's* (Spec/View.lean); the code-shaped model's answer is
+  required to coincide (theorems in Props/C02) and a disagreement is made visible.
 -/
+import EasyMl.Model.View
+import EasyMl.Spec.View
 import Driver.Parse
 
 namespace Driver.C02
+open EasyMl Driver
 
-abbrev State := Unit
+abbrev V := View String Nat
 
-def init : State := ()
+structure State where
+  stack : List V := []
 
-def step (s : State) (_toks : List String) : State × String := (s, "unimplemented")
+def init : State := {}
+
+def both (spec model : String) : String :=
+  if spec = model then spec else s!"{spec} ## MODEL-SPEC-DISAGREE {model}"
+
+def sentinel : Nat := 999999999999
+
+def leafData (id n : Nat) : List Nat := (List.range n).map fun k => id * 1000000 + k
+
+def showCell (c : Cell) : String := s!"{c.1}:{c.2}"
+
+def showCellOpt : Option Cell → String
+  | some c => s!"some({showCell c})"
+  | none => "none"
+
+/-- `name:a:b,…` -/
+def parseTriples (s : String) : Option (List (String × Nat × Nat)) :=
+  (splitComma s).mapM fun part =>
+    match part.splitOn ":" with
+    | [n, a, b] =>
+      match a.toNat?, b.toNat? with
+      | some x, some y => some (n, x, y)
+      | _, _ => none
+    | _ => none
+
+/-- `pos:name,…` -/
+def parsePosNames (s : String) : Option (List (Nat × String)) :=
+  (splitComma s).mapM fun part =>
+    match part.splitOn ":" with
+    | [p, n] => p.toNat?.map fun k => (k, n)
+    | _ => none
+
+def okShape (v : V) : String := s!"ok shape={showShape v.shape}"
+
+/-- apply a constructor to the top of the stack -/
+def applyTop (s : State) (f : V → Option (Option V)) : State × String :=
+  match s.stack with
+  | [] => (s, "skip")
+  | top :: rest =>
+    match f top with
+    | none => (s, "skip")
+    | some none => (s, "reject")
+    | some (some v) => ({ s with stack := v :: rest }, okShape v)
+
+/-- apply a constructor to the top `n` views (sources in push order) -/
+def applyTopN (s : State) (n : Nat) (f : List V → Option (Option V)) : State × String :=
+  if n = 0 ∨ n > 4 ∨ n > s.stack.length then (s, "skip")
+  else
+    let sources := (s.stack.take n).reverse
+    let rest := s.stack.drop n
+    match f sources with
+    | none => (s, "skip")
+    | some none => (s, "reject")
+    | some (some v) => ({ s with stack := v :: rest }, okShape v)
+
+/-- all index tuples of a grid in row-major order -/
+def allIndexes : List Nat → List (List Nat)
+  | [] => [[]]
+  | l :: ls => (List.range l).flatMap fun i => (allIndexes ls).map (i :: ·)
+
+def diffLeaves : List (Nat × List Nat) → List (Nat × List Nat) → List Cell
+  | (id, a) :: as, (_, b) :: bs =>
+    (((List.range a.length).filter fun k => a[k]? != b[k]?).map fun k => (id, k)) ++ diffLeaves as bs
+  | _, _ => []
+
+def showLayout : DataLayout String → String
+  | .linear order => s!"linear={showNames order}"
+  | .nonLinear => "nonlinear"
+  | .other => "other"
+where showNames (l : List String) : String := if l.isEmpty then "-" else ",".intercalate l
+
+/-- are the cells `(leaf, first), (leaf, first+1), …`? -/
+def consecutive : List Cell → Option (Nat × Nat × Nat)
+  | [] => none
+  | (l, o) :: rest =>
+    if (rest.zipIdx.all fun (c, k) => c.1 == l && c.2 == o + k + 1) then some (l, o, rest.length + 1)
+    else none
+
+def memorder (v : V) : String :=
+  let spec : String :=
+    match v.layout with
+    | .ok (.linear order) =>
+      -- a linear view is one whole leaf visited from its first to its last element
+      match v.leafIds with
+      | [leaf] => s!"linear={showLayout.showNames order} cells={leaf}:0+{prod (lens v.shape)}"
+      | _ => "spec-undefined"
+    | .ok _ => "none"
+    | .panic k => s!"panic({k})"
+  let model : String :=
+    match v.fromMemoryOrder with
+    | .panic k => s!"panic({k})"
+    | .ok none => "none"
+    | .ok (some a) =>
+      let order := match v.layout with | .ok (.linear o) => o | _ => []
+      let cells := (allIndexes (lens a.shape)).map fun idx => a.get idx
+      match cells.mapM (fun c => match c with | .ok (some c) => some c | _ => none) with
+      | none => "walk-failed"
+      | some cs =>
+        match consecutive cs with
+        | some (l, o, n) => s!"linear={showLayout.showNames order} cells={l}:{o}+{n}"
+        | none => s!"linear={showLayout.showNames order} cells=" ++ " ".intercalate (cs.map showCell)
+  both spec model
+
+def step (s : State) (toks : List String) : State × String :=
+  match toks with
+  | "@" :: _ => ({ stack := [] }, "ok")
+  | "leaf" :: idS :: shapeS :: _ =>
+    match idS.toNat?, parseShape shapeS with
+    | some id, some shape =>
+      if shape.length > 6 then (s, "skip") else
+      match View.mkTensor id shape (leafData id (elements shape)) with
+      | some v => ({ s with stack := v :: s.stack }, okShape v)
+      | none => (s, "reject")
+    | _, _ => (s, "bad-op")
+  | "matrix" :: idS :: rowsS :: colsS :: namesS :: _ =>
+    match idS.toNat?, rowsS.toNat?, colsS.toNat?, parseNames namesS with
+    | some id, some rows, some cols, [r, c] =>
+      match View.mkMatrix id rows cols (leafData id (rows * cols)) r c with
+      | some v => ({ s with stack := v :: s.stack }, okShape v)
+      | none => (s, "reject")
+    | _, _, _, _ => (s, "bad-op")
+  | "matrixof" :: namesS :: _ =>
+    match parseNames namesS with
+    | [r, c] => applyTop s fun v => if v.shape.length ≠ 2 then none else some (v.mkMatrixOf r c)
+    | _ => (s, "bad-op")
+  | "range" :: spec :: rest =>
+    match parseTriples spec with
+    | some ts =>
+      let named := ts.map fun (n, a, b) => (n, (⟨a, b⟩ : IndexRange))
+      let strict := optArg "kind" rest == some "strict"
+      applyTop s fun v => some (if strict then v.mkRangeStrict named else v.mkRange named)
+    | none => (s, "bad-op")
+  | "mask" :: spec :: rest =>
+    match parseTriples spec with
+    | some ts =>
+      let named := ts.map fun (n, a, b) => (n, (⟨a, b⟩ : IndexRange))
+      let strict := optArg "kind" rest == some "strict"
+      applyTop s fun v => some (if strict then v.mkMaskStrict named else v.mkMask named)
+    | none => (s, "bad-op")
+  | "index" :: spec :: _ =>
+    match parseShape spec with
+    | some provided =>
+      applyTop s fun v =>
+        if provided.length = 0 ∨ provided.length > v.shape.length then none
+        else some (v.mkIndex provided)
+    | none => (s, "bad-op")
+  | "expand" :: spec :: _ =>
+    match parsePosNames spec with
+    | some extra =>
+      applyTop s fun v =>
+        if extra.length = 0 ∨ v.shape.length + extra.length > 6 then none
+        else some (v.mkExpansion extra)
+    | none => (s, "bad-op")
+  | "rename" :: namesS :: _ =>
+    let names := parseNames namesS
+    applyTop s fun v => if names.length ≠ v.shape.length then none else some (v.mkRename names)
+  | "reverse" :: namesS :: _ =>
+    let names := parseNames namesS
+    applyTop s fun v => some (v.mkReverse names)
+  | "access" :: namesS :: _ =>
+    let names := parseNames namesS
+    applyTop s fun v => if names.length ≠ v.shape.length then none else some (v.mkAccess names)
+  | "transpose" :: namesS :: _ =>
+    let names := parseNames namesS
+    applyTop s fun v => if names.length ≠ v.shape.length then none else some (v.mkTranspose names)
+  | "stack" :: nS :: alongS :: _ =>
+    match nS.toNat?, parsePosNames alongS with
+    | some n, some [along] =>
+      applyTopN s n fun sources =>
+        match sources with
+        | [] => none
+        | first :: others =>
+          if others.any (fun o => o.shape.length != first.shape.length) then none
+          else if first.shape.length + 1 > 6 then none
+          else some (View.mkStack sources along)
+    | _, _ => (s, "bad-op")
+  | "chain" :: nS :: along :: _ =>
+    match nS.toNat? with
+    | some n =>
+      applyTopN s n fun sources =>
+        match sources with
+        | [] => none
+        | first :: others =>
+          if others.any (fun o => o.shape.length != first.shape.length) then none
+          else some (View.mkChain sources along)
+    | none => (s, "bad-op")
+  | "set_names" :: namesS :: _ =>
+    let names := parseNames namesS
+    match s.stack with
+    | (.rename src old) :: rest =>
+      if names.length ≠ (View.rename src old).shape.length then (s, "skip") else
+      match (View.rename src old).setNames names with
+      | (v, .ok _) => ({ s with stack := v :: rest }, okShape v)
+      | (v, .panic .explicit) => ({ s with stack := v :: rest }, "reject")
+      | (v, .panic k) => ({ s with stack := v :: rest }, s!"panic({k})")
+    | _ => (s, "skip")
+  | "get_names" :: _ =>
+    match s.stack with
+    | v :: _ =>
+      match v.getNames with
+      | some names => (s, s!"names={showLayout.showNames names}")
+      | none => (s, "skip")
+    | [] => (s, "skip")
+  | "swap_source" :: _ =>
+    match s.stack with
+    | top :: second :: rest =>
+      match top.sourceOf with
+      | some src =>
+        if src.shape.length ≠ second.shape.length then (s, "skip")
+        else
+          let v := top.replaceSource second
+          ({ s with stack := v :: src :: rest }, okShape v)
+      | none => (s, "skip")
+    | _ => (s, "skip")
+  | "shape" :: _ =>
+    match s.stack with
+    | v :: _ => (s, s!"shape={showShape v.shape}")
+    | [] => (s, "skip")
+  | "get" :: idxS :: rest =>
+    match s.stack, parseNatList idxS with
+    | v :: _, some idx =>
+      if idx.length ≠ v.shape.length then (s, "skip") else
+      let unchecked := (optArg "via" rest).any fun via => via.startsWith "unchecked"
+      -- the unchecked getters are only defined for valid indexes (anything else is undefined
+      -- behaviour): outside the shape the property's answer stands alone
+      let model :=
+        if unchecked then
+          if (v.specGet idx).isSome then showOutcome (fun c => showCellOpt (some c)) (v.getUnchecked idx)
+          else "none"
+        else showOutcome showCellOpt (v.get idx)
+      (s, both (showCellOpt (v.specGet idx)) model)
+    | [], _ => (s, "skip")
+    | _, none => (s, "bad-op")
+  | "set" :: idxS :: _ =>
+    match s.stack, parseNatList idxS with
+    | v :: _, some idx =>
+      if idx.length ≠ v.shape.length then (s, "skip") else
+      let spec := match v.specGet idx with | some c => s!"changed={showCell c}" | none => "none"
+      let model :=
+        match v.write idx sentinel with
+        | .panic k => s!"panic({k})"
+        | .ok none => "none"
+        | .ok (some v') =>
+          match diffLeaves v.leaves v'.leaves with
+          | [c] => s!"changed={showCell c}"
+          | cs => "changed-unexpected=" ++ " ".intercalate (cs.map showCell)
+      (s, both spec model)
+    | [], _ => (s, "skip")
+    | _, none => (s, "bad-op")
+  | "layout" :: _ =>
+    match s.stack with
+    | v :: _ => (s, showOutcome showLayout v.layout)
+    | [] => (s, "skip")
+  | "memorder" :: _ =>
+    match s.stack with
+    | v :: _ => (s, memorder v)
+    | [] => (s, "skip")
+  | _ => (s, "bad-op")
 
 end Driver.C02
